@@ -420,7 +420,8 @@ func (b *c07Base) emit(g *G, tag string, r [3][]byte, tags ...string) {
 			p, q = c07Hint(pq)
 		}
 	}
-	g.Emit(c07Op(tag, &b.c.D, &b.c.S.Key.PublicKey, p, q, r), tags...)
+	line := c07Op(tag, &b.c.D, &b.c.S.Key.PublicKey, p, q, r)
+	g.Emit(line, tags...)
 	consistent, rare := false, 12
 	for _, t := range tags {
 		consistent = consistent || t == "consistent"
@@ -428,6 +429,8 @@ func (b *c07Base) emit(g *G, tag string, r [3][]byte, tags ...string) {
 			rare = 60 // (each client-side aftermath waits a second for frames; these classes are large)
 		}
 	}
+	// ... and the clients of the c07.gone operations (the server hangs up after the exchange) are drawn from these
+	c07GoneRemember(b, tag, consistent, line)
 	if !consistent {
 		// the same fault, and the APPLICATION goes on with the object: for every class of fault (the part of the tag
 		// before the colon: the reply and field, hence the step at which the exchange is abandoned) the first
@@ -558,6 +561,7 @@ func c07Gen(g *G) {
 	// ... followed by keys with other public exponents than 65537, one per byte length of the exponent (hsKeyPoolExp)
 	c07Pool = hsKeyPoolExp(r, g.N(3, 4), g.Thorough())
 	c07AfterCount = map[string]int{}
+	c07GonePool, c07GoneHonest = nil, nil
 	key := c07Pool[0]
 	c07GenSequences(g, r)
 	rounds := g.N(2, 32)
@@ -597,6 +601,8 @@ func c07Gen(g *G) {
 			}
 		}
 	}
+	// (7) the server hangs up after the client has given the exchange up (c07gone.go)
+	c07GenGone(g, r)
 }
 
 func c07GenRound(g *G, r *Rand, key *rsa.PrivateKey, round int) {
@@ -938,6 +944,9 @@ func c07ParseSeq(op []string) (keyobj string, steps []*c07Case, ok bool) {
 
 func c07Exec(op []string) string {
 	c07Last = nil
+	if len(op) > 0 && op[0] == "c07.gone" {
+		return c07GoneExec(op)
+	}
 	if len(op) > 0 && op[0] == "c07.seq" {
 		keyobj, steps, ok := c07ParseSeq(op)
 		if !ok {
@@ -976,6 +985,9 @@ func c07Judge(op []string, out string) string {
 		return ""
 	}
 	runs := c07Last
+	if op[0] == "c07.gone" {
+		return c07GoneJudge(op, out)
+	}
 	if op[0] == "c07.seq" {
 		keyobj, steps, ok := c07ParseSeq(op)
 		if !ok || len(runs) != len(steps) {
